@@ -61,7 +61,15 @@ ImageOK(r) ==
   /\ r.identity
   /\ r.derivedBad = 0
 
+(* C01 at file level — a sequence written through File and read back through File: every object comes back, in
+   order, equal to what the object-level codec gives for it (RoundTrip above), followed by the end-of-file triple *)
+FileRoundTrip(r) ==
+  /\ r.delivered = r.n
+  /\ r.mismatched = 0
+  /\ r.eofOk
+
 RecordOK(r) == CASE Which = "C03" -> FramedAsDeclared(r)
+                 [] Which = "C01F" -> FileRoundTrip(r)
                  [] Which = "C02" -> ImageOK(r)
                  [] Which = "C01" -> RoundTrip(r)
                  [] Which = "C17" -> FactoryConsistent(r)
